@@ -199,3 +199,42 @@ def data_rule(ctx, repo):
                             ctx.violation(construct, where, '%s on bytes %s: %s' % (name, snap[start:start + n], problem))
                     else:
                         ctx.ok({'case': name} if n == 5 else None)
+
+def ignored_gap_rule(ctx, repo):
+    """C01.6 (*fold*): what sna2skool writes for an ignored block in the middle of the range is a bare entry header (`i40002`) with no
+    instruction and no @org after it.  skool2bin's line handler (BinWriter._parse_instruction, folded on such a sequence of lines) must put
+    the first instruction after the ignored block at its own address: the property promises the original byte at every original address
+    outside ignored blocks."""
+    from sa.core.classfold import Inst
+    import collections
+    ctx.rule('C01.6-ignored-gap', 'skool2bin places the instruction that follows an instruction-less (ignored) entry at its own address (BinWriter._parse_instruction folded on the lines sna2skool writes)', floor=2)
+    cf = ClassFolder(repo, 'skool2bin')
+    class Asm:
+        _sa_fold_ok = True
+        _sa_model = True
+        def get_size(self, op, addr):
+            return {'DEFB 1,2': 2, 'DEFB 6,7,8': 3, 'NOP': 1, 'RET': 1}[op]
+    for lines, want in (([ 'b40000 DEFB 1,2', 'i40002', 'b40005 DEFB 6,7,8'], [(40000, 40000), (40005, 40005)]),
+                        (['c40000 NOP', ' 40001 RET', 'i40002', 'c40010 NOP'], [(40000, 40000), (40001, 40001), (40010, 40010)])):
+        bw = Inst('skool2bin', 'BinWriter', cf)
+        bw.assembler = Asm(); bw.instructions = []; bw.start = -1; bw.end = 65537
+        bw.keep = None; bw.nowarn = None; bw.data = None; bw.bvalues = None; bw.address_map = {}; bw.entry_ctl = None
+        bw.subs = collections.defaultdict(list, {(0, 0): ()})
+        address = None
+        try:
+            for line in lines:
+                address = cf.call(bw, '_parse_instruction', address, line, set())
+                if line[0] != ' ' and line[6:].strip() == '':
+                    bw.entry_ctl = None
+        except NotLiteral as e:
+            ctx.limit('ignored gap', 'BinWriter._parse_instruction not foldable: %s' % e)
+            continue
+        except (KeyError, IndexError, ValueError, TypeError, AttributeError) as e:
+            ctx.violation('ignored gap', 'skoolkit/skool2bin.py', '_parse_instruction fails on %s with %s: %s' % (lines, type(e).__name__, e))
+            continue
+        got = [(i.address, i.real_address) for i in bw.instructions]
+        if got != want:
+            ctx.violation('ignored gap', 'skoolkit/skool2bin.py (BinWriter._parse_instruction)',
+                          'lines %s: instructions are placed at %s (skool address, real address), expected %s - the block after the ignored one is assembled directly behind the block before it, so every byte after the gap lands at the wrong address (sna2skool writes no @org after an ignored block)' % (lines, got, want))
+        else:
+            ctx.ok({'lines': lines})
